@@ -946,8 +946,9 @@ func (up4 *UP4) removeUeAddrAndFSEIDMappings(pdr pdr) {
 func (up4 *UP4) updateTunnelPeersBasedOnFARs(fars []far) error {
 	for _, far := range fars {
 		logger := logger.PfcpLog.With("far", far)
-		// downlink FAR with tunnel params that does encapsulation
-		if far.Forwards() && far.dstIntf == ie.DstInterfaceAccess && far.tunnelTEID != 0 {
+		// downlink FAR with tunnel params: whatever its action, its entries are only built (and removed)
+		// while the tunnel peer is known, so it holds a reference on the peer as long as it names it
+		if far.dstIntf == ie.DstInterfaceAccess && far.tunnelTEID != 0 {
 			if err := up4.addOrUpdateGTPTunnelPeer(far); err != nil {
 				logger.Errorf("failed to add or update GTP tunnel peer: %v", err)
 				return err
